@@ -20,6 +20,7 @@ COMBOS = {
     "lazy_parent_split": [["inst", "pinst"], ["meta", "pmeta"], ["pinst", "fields"]],
     "mixin_new": [["sub", "sub"], ["sub", "inst"]],
     "sub_new_forwards": [["inst", "inst"], ["inst", "meta"]],
+    "decorator_typed_parent": [["inst", "pinst"], ["meta", "pmeta"], ["fields", "inst"]],
     "plain_subclass": [["sub", "inst"], ["sub", "sub"], ["meta", "sub"]],
     "keyed_nested": [["inst", "inst"], ["inst", "fields"]],
 }
